@@ -94,10 +94,10 @@ end
 def ord3 (p q : Bool) : Ord4 := if p then .lt else if q then .gt else .eq
 
 theorem ord3_tests (p q : Bool) (h : p = true → q = false) :
-    (ord3 p q == .lt) = p ∧ (ord3 p q == .gt) = q ∧ (ord3 p q == .eq) = (!p && !q) ∧
-    (ord3 p q == .lt || ord3 p q == .eq) = !q ∧ (ord3 p q == .gt || ord3 p q == .eq) = !p ∧
+    (ord3 p q).isLt = p ∧ (ord3 p q).isGt = q ∧ (ord3 p q).isEq = (!p && !q) ∧
+    (ord3 p q).isLe = !q ∧ (ord3 p q).isGe = !p ∧
     (ord3 p q).toInt = (if p then BitVec.ofInt 64 (-1) else if q then 1#64 else 0#64) := by
-  cases p <;> cases q <;> simp_all [ord3, Ord4.toInt] <;> decide
+  cases p <;> cases q <;> simp_all [ord3, Ord4.toInt, Ord4.isLt, Ord4.isGt, Ord4.isEq, Ord4.isLe, Ord4.isGe] <;> decide
 
 theorem ordInt_eq (x y : BitVec 64) : ordInt x y = ord3 (BitVec.slt x y) (BitVec.slt y x) := rfl
 theorem ordStr_eq (x y : Str) : ordStr x y = ord3 (strLt x y) (strLt y x) := rfl
@@ -116,24 +116,120 @@ theorem str_eq_test (x y : Str) : (!strLt x y && !strLt y x) = (x == y) := by
   · have : ¬ (strLt x y = false ∧ strLt y x = false) := fun ⟨a, b⟩ => h (strLt_connex x y a b)
     cases h1 : strLt x y <;> cases h2 : strLt y x <;> simp_all
 
-theorem ordBool_eq_test (x y : Bool) : (ordBool x y == .eq) = (x == y) := by
+theorem ordBool_eq_test (x y : Bool) : (ordBool x y).isEq = (x == y) := by
   cases x <;> cases y <;> rfl
 
 section
 variable {F : Type} (P : Prim F)
 
 theorem ordFloat_tests (hF : FloatOrder P) (x y : F) :
-    (ordFloat P x y == .lt) = P.lt x y ∧ (ordFloat P x y == .gt) = P.lt y x ∧
-    (ordFloat P x y == .eq) = P.eq x y ∧
-    (ordFloat P x y == .lt || ordFloat P x y == .eq) = P.le x y ∧
-    (ordFloat P x y == .gt || ordFloat P x y == .eq) = P.le y x ∧
+    (ordFloat P x y).isLt = P.lt x y ∧ (ordFloat P x y).isGt = P.lt y x ∧
+    (ordFloat P x y).isEq = P.eq x y ∧
+    (ordFloat P x y).isLe = P.le x y ∧
+    (ordFloat P x y).isGe = P.le y x ∧
     (ordFloat P x y).toInt = (if P.lt x y then BitVec.ofInt 64 (-1) else if P.lt y x then 1#64 else 0#64) := by
   have h1 := hF.lt_asymm x y
   have h2 := hF.eq_not_lt x y
   have h3 := hF.eq_not_lt y x
   rw [hF.le_iff x y, hF.le_iff y x, hF.eq_symm y x] at *
   unfold ordFloat
-  cases hp : P.lt x y <;> cases hq : P.lt y x <;> cases he : P.eq x y <;> simp_all [Ord4.toInt] <;> decide
+  cases hp : P.lt x y <;> cases hq : P.lt y x <;> cases he : P.eq x y <;>
+    simp_all [Ord4.toInt, Ord4.isLt, Ord4.isGt, Ord4.isEq, Ord4.isLe, Ord4.isGe] <;> decide
+
+/-- the integer and string sides of the documented order, in terms of the strict orders -/
+theorem int_lt_test (x y : BitVec 64) : decide (x.toInt < y.toInt) = BitVec.slt x y := by
+  rw [BitVec.slt_eq_decide]
+theorem int_le_test (x y : BitVec 64) : decide (x.toInt ≤ y.toInt) = !BitVec.slt y x := by
+  rw [BitVec.slt_eq_decide]
+  by_cases h : x.toInt ≤ y.toInt
+  · have : ¬ y.toInt < x.toInt := by omega
+    simp [h, this]
+  · have : y.toInt < x.toInt := by omega
+    simp [h, this]
+
+/-! ## the specification's "convert, then compare like with like" against the helper -/
+
+theorem Ord4.rev_tests (o : Ord4) : o.rev.isLt = o.isGt ∧ o.rev.isLe = o.isGe := by
+  cases o <;> exact ⟨rfl, rfl⟩
+
+theorem Ord4.toInt_tests (o : Ord4) :
+    o.toInt = (if o.isLt then BitVec.ofInt 64 (-1) else if o.isGt then 1#64 else 0#64) := by
+  cases o <;> rfl
+
+/-- on a pair of the same kind (or an int/float pair) the helper answers what the documented
+same-kind rules say -/
+theorem base_compare {T : TruthTable} (hT : wf T = true) (hF : FloatOrder P) (a b : Val F) :
+    (∀ p, Spec.Ops.baseOrder P a b = some p →
+      ∃ o, looseCompare P T a b = some o ∧ o.isLt = p.1 ∧ o.isLe = p.2) ∧
+    (∀ e, Spec.Ops.baseEq P a b = some e → ∃ o, looseCompare P T a b = some o ∧ o.isEq = e) := by
+  have ha := wf_asBool P hT a
+  have hb := wf_asBool P hT b
+  have hf := fun x y => ordFloat_tests P hF x y
+  have hi := fun x y => ord3_tests (BitVec.slt x y) (BitVec.slt y x) (slt_asymm' x y)
+  have hs := fun x y => ord3_tests (strLt x y) (strLt y x) (strLt_asymm x y)
+  refine ⟨?_, ?_⟩ <;> intro p hp <;> cases a <;> cases b <;>
+    simp [Spec.Ops.baseOrder, Spec.Ops.baseEq, Spec.Ops.toF] at hp <;> subst hp <;>
+    simp [looseCompare, isNullOrBool, ha, hb, Spec.Ops.truthy, ordInt_eq, ordStr_eq, hf, hi, hs,
+      int_lt_test, int_le_test, int_eq_test, str_eq_test, ordBool_eq_test] <;>
+    (try (rename_i x y; cases x <;> cases y <;> decide)) <;> (try decide)
+
+/-- the helper gives the same answer on a pair and on its documented conversion -/
+theorem conv_compare {T : TruthTable} (hT : wf T = true) (hF : FloatOrder P) (a b x y : Val F)
+    (h : Spec.Ops.conv P a b = some (x, y)) : looseCompare P T a b = looseCompare P T x y := by
+  have ha := wf_asBool P hT a
+  have hb := wf_asBool P hT b
+  have hbool := fun v : Bool => wf_asBool P hT (Val.bool v : Val F)
+  have hfr := ordFloat_rev P hF.eq_symm hF.lt_asymm
+  cases a <;> cases b <;>
+    simp only [Spec.Ops.conv, Spec.Ops.convNumStr, Spec.Ops.strNumber, Spec.Ops.numString, Spec.Ops.isIntVal,
+      Spec.Ops.isNullOrBool, Bool.or_false, Bool.or_true, Bool.false_or, if_true, if_false, Bool.false_eq_true,
+      Option.some.injEq, Prod.mk.injEq] at h
+  case int.str n s =>
+    cases hai : P.atoi s <;> cases hpi : P.parse s <;>
+      simp only [hai, hpi, Option.map_some, Option.map_none, Option.some.injEq, Prod.mk.injEq] at h <;>
+      obtain ⟨h1, h2⟩ := h <;> subst h1 <;> subst h2 <;>
+      simp only [looseCompare, ordIntStr, ordFloatStr, hai, hpi] <;>
+      first
+        | rfl
+        | exact (congrArg some (ordInt_rev _ _)).symm
+        | exact (congrArg some (ordStr_rev _ _)).symm
+        | exact (congrArg some (hfr _ _)).symm
+  case float.str n s =>
+    cases hai : P.atoi s <;> cases hpi : P.parse s <;>
+      simp only [hai, hpi, Option.map_some, Option.map_none, Option.some.injEq, Prod.mk.injEq] at h <;>
+      obtain ⟨h1, h2⟩ := h <;> subst h1 <;> subst h2 <;>
+      simp only [looseCompare, ordIntStr, ordFloatStr, hai, hpi] <;>
+      first
+        | rfl
+        | exact (congrArg some (ordInt_rev _ _)).symm
+        | exact (congrArg some (ordStr_rev _ _)).symm
+        | exact (congrArg some (hfr _ _)).symm
+  case str.int s n =>
+    cases hai : P.atoi s <;> cases hpi : P.parse s <;>
+      simp only [hai, hpi, Option.map_some, Option.map_none, Option.some.injEq, Prod.mk.injEq] at h <;>
+      obtain ⟨h1, h2⟩ := h <;> subst h1 <;> subst h2 <;>
+      simp only [looseCompare, ordIntStr, ordFloatStr, hai, hpi] <;>
+      first
+        | rfl
+        | exact (congrArg some (ordInt_rev _ _)).symm
+        | exact (congrArg some (ordStr_rev _ _)).symm
+        | exact (congrArg some (hfr _ _)).symm
+  case str.float s n =>
+    cases hai : P.atoi s <;> cases hpi : P.parse s <;>
+      simp only [hai, hpi, Option.map_some, Option.map_none, Option.some.injEq, Prod.mk.injEq] at h <;>
+      obtain ⟨h1, h2⟩ := h <;> subst h1 <;> subst h2 <;>
+      simp only [looseCompare, ordIntStr, ordFloatStr, hai, hpi] <;>
+      first
+        | rfl
+        | exact (congrArg some (ordInt_rev _ _)).symm
+        | exact (congrArg some (ordStr_rev _ _)).symm
+        | exact (congrArg some (hfr _ _)).symm
+  all_goals first
+    | (obtain ⟨h1, h2⟩ := h; subst h1; subst h2;
+       simp [looseCompare, isNullOrBool, ha, hb, hbool, Spec.Ops.truthy]; done)
+    | (obtain ⟨h1, h2⟩ := h; subst h1; subst h2; rfl)
+    | (obtain ⟨h1, h2⟩ := h; subst h1; subst h2;
+       simp [looseCompare, isNullOrBool, ha, hb, hbool, Spec.Ops.truthy, ordBool]; done)
 
 end
 end Proofs.Ops
